@@ -56,6 +56,28 @@ def sample(behs, k, rng, keep_first=0):
     return head + rng.sample(rest, k - keep_first)
 
 
+def sparsify(b, rng):
+    """block numbers in production are sparse (only blocks with events and range-end blocks are stored): map the model's
+    consecutive numbers onto increasing numbers with gaps, and a reorg point onto any number in (previous block, block]"""
+    real, last_model = {}, 0
+    def r(n):
+        for k in range(1, n + 1):
+            if k not in real:
+                real[k] = (real[k - 1] if k > 1 else rng.choice([0, 0, 4])) + rng.choice([1, 2, 3, 5])
+        return real[n] if n > 0 else 0
+    ops = []
+    for o in b["ops"]:
+        o = dict(o)
+        if o["op"] == "process":
+            o["num"] = r(o["num"])
+        elif o["op"] == "reorg":
+            f = o["from"]
+            lo, hi = r(f - 1) + 1, r(f)
+            o["from"] = rng.randint(lo, hi)
+        ops.append(o)
+    return dict(kind=b["kind"], ops=ops)
+
+
 def count_ops(behs):
     return sum(len(b["ops"]) for b in behs)
 
@@ -106,7 +128,8 @@ def store_check(prop, model_cfgs, gen_cfgs, quick_n, thorough_n, kinds_note, inv
                 if filt:
                     bs = [b for b in bs if filt(b)]
                 gstats.append(dict(cfg=cfg, edges=len(cases), behaviours=len(bs), states=gst["distinct"]))
-                behs += sample(bs, thorough_n if thorough else quick_n, rng)
+                picked = sample(bs, thorough_n if thorough else quick_n, rng)
+                behs += [sparsify(x, rng) if rng.random() < 0.5 else x for x in picked]
             if extra_behaviours:
                 behs += extra_behaviours(rng, thorough)
             behs = reg + behs
